@@ -412,6 +412,69 @@ func genKindsPackage(n int) idlPkg {
 	return pkg
 }
 
+// genOverloadPackage builds a package whose interfaces have three to six members sharing ONE name:
+// overloaded methods (same name, different parameter lists), possibly a signal and a property of
+// that name too, next to ordinary members; the generators must give each of them its own Go name.
+func genOverloadPackage(rng *rand.Rand, n int) idlPkg {
+	pkg := idlPkg{Name: fmt.Sprintf("p%04d", n), Class: "overloads"}
+	var b strings.Builder
+	fmt.Fprintf(&b, "package %s\nstruct CellT\n\tx: int32\n\tlabel: str\nend\n", pkg.Name)
+	shared := []string{"level", "over", "apply", "state", "run", "put"}
+	paramLists := []string{"a: int32", "a: str", "a: bool", "", "a: int32, b: str", "a: Vec<float64>", "a: CellT", "a: Map<str,int64>, b: uint8", "a: any"}
+	for k := 0; k < 1+rng.Intn(2); k++ {
+		it := idlIface{Name: fmt.Sprintf("Over%dI", k)}
+		name := shared[rng.Intn(len(shared))]
+		nm := 1 + rng.Intn(4)
+		withSig := rng.Intn(2) == 0
+		withProp := rng.Intn(2) == 0
+		for nm+b2i(withSig)+b2i(withProp) < 3 {
+			nm++
+		}
+		fmt.Fprintf(&b, "interface %s\n", it.Name)
+		fmt.Fprintf(&b, "\tfn first(q: int32) -> int32\n")
+		it.Methods = append(it.Methods, idlMethod{"first", 1, true})
+		for j, pi := range rng.Perm(len(paramLists))[:nm] {
+			pl := paramLists[pi]
+			ret := j%2 == 0
+			if ret {
+				fmt.Fprintf(&b, "\tfn %s(%s) -> Vec<str>\n", name, pl)
+			} else {
+				fmt.Fprintf(&b, "\tfn %s(%s)\n", name, pl)
+			}
+			np := 0
+			if pl != "" {
+				np = strings.Count(pl, ":")
+			}
+			it.Methods = append(it.Methods, idlMethod{name, np, ret})
+		}
+		fmt.Fprintf(&b, "\tfn last() -> str\n")
+		it.Methods = append(it.Methods, idlMethod{"last", 0, true})
+		if withSig {
+			fmt.Fprintf(&b, "\tsig %s(v: int32, w: str)\n", name)
+			it.Signals = append(it.Signals, idlSignal{name, 2})
+		}
+		fmt.Fprintf(&b, "\tsig other(v: uint8)\n")
+		it.Signals = append(it.Signals, idlSignal{"other", 1})
+		if withProp {
+			fmt.Fprintf(&b, "\tprop %s(v: int64)\n", name)
+			it.Props = append(it.Props, name)
+		}
+		fmt.Fprintf(&b, "\tprop plain(v: str)\n")
+		it.Props = append(it.Props, "plain")
+		b.WriteString("end\n")
+		pkg.Ifaces = append(pkg.Ifaces, it)
+	}
+	pkg.Text = b.String()
+	return pkg
+}
+
+func b2i(v bool) int {
+	if v {
+		return 1
+	}
+	return 0
+}
+
 // hygKey is the finding key of a failing package of class sweep / hygiene.
 func hygKey(p *idlPkg, msg, symptom string) string {
 	if p.SweepKey != "" {
@@ -670,7 +733,7 @@ func main() {
 }
 
 func c05(c *wk.Ctx) {
-	c.Note("rule", "each case is a generated well-formed IDL package (1-3 interfaces; 0-3 structs, shared and nested; methods with 0-5 parameters and optional return; signals with 1-3 parameters; single-parameter properties; all scalar types, any, Vec, Map, struct references; class tuples adds Tuple<...>; class hygiene draws identifiers from Go keywords, predeclared names, the generators' own local names, imported package names and reserved proxy method names, leaving out the (role, identifier) pairs that are listed as known findings, so that every package of the class is expected to work; class kinds = one fixed package with a method, a signal and a property for every basic IDL type; class sweep = a small fixed package with exactly ONE special identifier in ONE role, or two action names differing by the case of the first letter: every (role, identifier) pair in the thorough tier; in the quick tier the 45 pairs made of reserved object / proxy method names used as action names and of capitalisation twins, plus 115 seed-chosen ones; a failing pair is reported under hygiene/role=R/ident=I/symptom=generator-fails | declarations-missing | does-not-compile | round-trip-fails | runner-crashes). The IDL is first accepted by the real IDL parser, then the stub/proxy generator built from the current tree produces Go code; implementors and drivers are emitted by reading the generated code's own interfaces (go/ast). Oracle 1: everything compiles (go build; failing packages are identified from the compiler output and excluded, the rest is rebuilt). Oracle 2 (runner process, real directory server + session): for every method, reflection-filled random arguments arrive at the implementation equal and exactly once and the preset return value arrives at the caller equal; every signal emitted through the generated helper reaches the generated subscriber equal; property set/get/update round-trip and the change callback sees the written value. Distinct non-trivial = distinct packages that compiled and completed at least one round-trip check.")
+	c.Note("rule", "each case is a generated well-formed IDL package (1-3 interfaces; 0-3 structs, shared and nested; methods with 0-5 parameters and optional return; signals with 1-3 parameters; single-parameter properties; all scalar types, any, Vec, Map, struct references; class tuples adds Tuple<...>; class hygiene draws identifiers from Go keywords, predeclared names, the generators' own local names, imported package names and reserved proxy method names, leaving out the (role, identifier) pairs that are listed as known findings, so that every package of the class is expected to work; class overloads = interfaces with three to six members sharing one name (overloaded methods with different parameter lists, a signal and a property of that name); class kinds = one fixed package with a method, a signal and a property for every basic IDL type; class sweep = a small fixed package with exactly ONE special identifier in ONE role, or two action names differing by the case of the first letter: every (role, identifier) pair in the thorough tier; in the quick tier the 45 pairs made of reserved object / proxy method names used as action names and of capitalisation twins, plus 115 seed-chosen ones; a failing pair is reported under hygiene/role=R/ident=I/symptom=generator-fails | declarations-missing | does-not-compile | round-trip-fails | runner-crashes). The IDL is first accepted by the real IDL parser, then the stub/proxy generator built from the current tree produces Go code; implementors and drivers are emitted by reading the generated code's own interfaces (go/ast). Oracle 1: everything compiles (go build; failing packages are identified from the compiler output and excluded, the rest is rebuilt). Oracle 2 (runner process, real directory server + session): for every method, reflection-filled random arguments arrive at the implementation equal and exactly once and the preset return value arrives at the caller equal; every signal emitted through the generated helper reaches the generated subscriber equal; property set/get/update round-trip and the change callback sees the written value. Distinct non-trivial = distinct packages that compiled and completed at least one round-trip check.")
 	root := os.Getenv("VERIF_ROOT")
 	if root == "" {
 		root = "/verif"
@@ -705,13 +768,18 @@ func c05(c *wk.Ctx) {
 	}
 	sort.SliceStable(sweepOrder, func(a, b int) bool { return prio(sweepOrder[a]) && !prio(sweepOrder[b]) })
 	nSweep := c.Pick(160, len(pairs))
-	c.Cases("package", total+nSweep+1, func(i int, rng *rand.Rand) {
+	nOver := c.Pick(12, 400)
+	c.Cases("package", total+nSweep+1+nOver, func(i int, rng *rand.Rand) {
 		class := []string{"plain", "plain", "hygiene", "tuples"}[i%4]
 		if o := os.Getenv("C05_CLASS"); o != "" {
 			class = o
 		}
 		var pkg idlPkg
-		if i == total+nSweep {
+		if i > total+nSweep {
+			class = "overloads"
+			pkg = genOverloadPackage(rng, i)
+			c.Count("packages_with_three_or_more_members_of_one_name", 1)
+		} else if i == total+nSweep {
 			class = "kinds"
 			pkg = genKindsPackage(i)
 		} else if i >= total {
